@@ -304,23 +304,30 @@ class Check(PropertyCheck):
     prop = "C14"
     design_ref = "§5 C14"
     level_text = ("Lean theorems about the model of TunnelLayer + TLSLayer/ServerTLSLayer/ClientTLSLayer with OpenSSL as an abstract codec obeying the "
-                  "stream-faithfulness law (structure Laws; for ANY lawful codec, any child layer, any state): child_receives_exactly (a receive_data call hands the "
-                  "child exactly the plaintext that the ciphertext received so far — however segmented — newly decodes, once and in order, and leaves nothing "
-                  "decodable behind when the recv loop ends normally), client_receives_exactly (after a child SendData the ciphertext emitted so far is the "
-                  "engine's output and decodes at the peer to exactly the payloads accepted so far; the invariants are preserved), close_after_data "
-                  "(ConnectionClosed from close_notify is the last event of the call, after its DataReceived, only when everything before it was delivered; no "
-                  "close otherwise), queued_during_handshake_in_order (while ESTABLISHING on an open connection events are stored and the child sees nothing; "
-                  "_handshake_finished hands them over in arrival order, each once, and empties the store). Model tied to the real layers + real TlsConfig + "
-                  "real OpenSSL by scenario runs compared step by step (child events with chunk boundaries, decrypted plaintext, closes/opens/hooks, final state).")
-    level_note = ("PARTIAL: all byte-transparency theorems are RELATIVE to the stream-faithfulness law of the TLS engine (OpenSSL's; structure fields, never "
-                  "axioms; shown satisfiable by a pass-through codec `idLaws`; the framed reference codec of the driver is validated differentially, not "
-                  "proved lawful). The four theorems are per-call statements (receive_data / send_data / event_to_child / _handshake_finished, for arbitrary "
-                  "states); the composition over whole event histories (inbound stream = concatenation of all DataReceived segments incl. the ClientHello buffer; "
-                  "invariants `emitted = engine output`, `accepted = engine plaintext` established from Start) is NOT proved in Lean — it is covered only by the "
-                  "scenario runs. Assumes Layer.handle_event's pause/replay (C04): hooks and OpenConnection are answered before the next event. Not modelled: "
-                  "ignore_connection, ServerTLSLayer.wait_for_clienthello hand-over, DTLS. TLS 1.3 only in the differential run. The harness replays EOF / data "
-                  "after a close_notify directly (world.py declines once the TLS layer cleared CAN_READ, proxy/server.py's reader does not).")
-    technique = "Lean 4 proof (model of the tunnel/TLS layers, parametric in a lawful codec; induction over the recv/bio_read loops and the event queue) + real-OpenSSL scenario correspondence"
+                  "stream-faithfulness law (structure Laws). WHOLE CONNECTIONS — for EVERY event history from Start (flights cut anywhere, ClientHello buffering, "
+                  "events stored while ESTABLISHING, any interleaving of data / child commands / unrelated events / closes), any child, any lawful codec whose "
+                  "connection object starts fresh, as long as the model raised no exception: child_stream_exact (events routed = handled ++ stored [++ swallowed "
+                  "after a failed client handshake], nothing lost or twice, in order; the DataReceived payloads are exactly the first `taken` bytes of the "
+                  "plaintext of ALL bytes received, fed = all bytes received), child_stream_complete (a segment whose recv loop ends normally leaves the child "
+                  "with the COMPLETE plaintext of the connection so far), peer_stream_exact (emitted ciphertext = engine output, and the peer's reading of it = "
+                  "the concatenation of the child's accepted SendData payloads), close_last (when a segment makes close_notify visible the child gets the rest of "
+                  "the data, then exactly one ConnectionClosed, and then holds the complete plaintext of the connection). Proved by an inductive invariant over "
+                  "histories (queue discipline QG, crash monotonicity, engine-vs-layer ghost invariant TG). Plus the per-call theorems child_receives_exactly, "
+                  "client_receives_exactly, close_after_data, queued_during_handshake_in_order for arbitrary states. Model tied to the real layers + real "
+                  "TlsConfig + real OpenSSL by scenario runs compared step by step (child events with chunk boundaries, decrypted plaintext, closes/opens/hooks, "
+                  "final state).")
+    level_note = ("PARTIAL: everything is RELATIVE to the stream-faithfulness law of the TLS engine (OpenSSL's; structure fields, never axioms; shown "
+                  "satisfiable by the pass-through codec `idLaws`). NOT done: `refLaws` — the framed reference codec of the driver is not proved lawful (Laws "
+                  "quantifies over all codec states; a stateful record parser satisfies it only on consistent states, which needs a subtype/reachability "
+                  "refactoring of Laws), so the differential run validates the layer model with a codec that is itself only validated differentially. The "
+                  "whole-history theorems are conditional on `crashed = false` (the model's stand-in for an exception of the real code, e.g. data for a layer "
+                  "whose tls_start hook provided nothing). close_last: a second ConnectionClosed IS produced if further bytes arrive after a close_notify "
+                  "(recv keeps answering ZeroReturn) — real behaviour, reproduced in the differential run; 'exactly one' is per segment. Assumes "
+                  "Layer.handle_event's pause/replay (C04): hooks and OpenConnection are answered before the next event; the reply to OpenConnection is only "
+                  "considered while command_to_reply_to is set; a second start_tls is the real code's `assert not self.tls`. Not modelled: ignore_connection, "
+                  "ServerTLSLayer.wait_for_clienthello hand-over, DTLS. TLS 1.3 only in the differential run. The harness replays EOF / data after a close_notify "
+                  "directly (world.py declines once the TLS layer cleared CAN_READ, proxy/server.py's reader does not).")
+    technique = "Lean 4 proof (model of the tunnel/TLS layers, parametric in a lawful codec; inductive invariant over all event histories; induction over the recv/bio_read loops and the event queue) + real-OpenSSL scenario correspondence"
     rule = ("scenario = side (ClientTLSLayer / ServerTLSLayer opened by the child / ServerTLSLayer on an open connection) x handshake flights cut into "
             "segments (incl. tail held back so application data follows Finished in one segment) x peer writes of record sizes 1..16384 cut anywhere "
             "(inside records, across writes) x child sends interleaved x unrelated events x close_notify / TCP close / child close. distinct = distinct "
